@@ -56,7 +56,7 @@ func (s lcStep) String() string {
 		return fmt.Sprintf("%s#%d(%s,%s)", s.Kind, s.Sess, s.Cause, s.Cause2)
 	case "gateTableDelete":
 		return fmt.Sprintf("gateTableDelete#%d(%s,rev%d,%s)", s.Sess, s.Car, s.Rev, s.Cause)
-	case "gateClose", "sendWindow":
+	case "gateClose", "sendWindow", "closeWindow":
 		return fmt.Sprintf("%s#%d(%s)", s.Kind, s.Sess, s.Cause)
 	case "advance":
 		return fmt.Sprintf("advance(%v)", s.D)
@@ -142,7 +142,7 @@ func genLC(rt *rapid.T, gates bool, known map[string]bool, col *Collector) []lcS
 			kinds = nil
 		}
 		if nsess > 0 {
-			kinds = append(kinds, "cause", "two", "traffic", "traffic", "advance", "advance", "sendAfterClose", "sendWindow")
+			kinds = append(kinds, "cause", "two", "traffic", "traffic", "advance", "advance", "sendAfterClose", "sendWindow", "closeWindow")
 			if rapid.IntRange(0, 3).Draw(rt, l+".sc") == 0 {
 				kinds = append(kinds, "serverClose", "serverClose")
 			}
@@ -193,12 +193,15 @@ func genLC(rt *rapid.T, gates bool, known map[string]bool, col *Collector) []lcS
 			}
 			alive[nsess] = true
 			nsess++
-		case "cause", "two", "gateOnClose", "gateClose", "traffic", "sendAfterClose", "sendWindow":
+		case "cause", "two", "gateOnClose", "gateClose", "traffic", "sendAfterClose", "sendWindow", "closeWindow":
 			st.Sess = rapid.IntRange(0, nsess-1).Draw(rt, l+".sess")
 			st.Cause = rapid.SampledFrom(lcCauses).Draw(rt, l+".cause")
 			st.Cause2 = rapid.SampledFrom(lcCauses).Draw(rt, l+".cause2")
 			if k == "gateClose" {
 				st.Cause = rapid.SampledFrom([]string{"drop", "closePacket", "wrongHeartbeat", "appCloseNow"}).Draw(rt, l+".gc")
+			}
+			if k == "closeWindow" {
+				st.Cause = rapid.SampledFrom([]string{"appCloseNow", "appCloseNow", "closePacket", "wrongHeartbeat", "drop"}).Draw(rt, l+".cw")
 			}
 			if k == "sendWindow" {
 				st.Cause = rapid.SampledFrom([]string{"appCloseNow", "appCloseNow", "drop", "closePacket", "wrongHeartbeat", "garbage", "appClose"}).Draw(rt, l+".sw")
@@ -916,6 +919,68 @@ func runLC(steps []lcStep) (*lcWorld, bubbleResult) {
 				}
 				<-done
 				Settle()
+			case "closeWindow":
+				// the session closes while an upgrade candidate has been probed; an application close listener
+				// (registered before the candidate appeared, so it runs before the library's own bookkeeping for
+				// the attempt) stays busy while the candidate's upgrade packet, a client message and an
+				// application Send arrive: the close event is final, none of them may produce an event
+				if s == nil || s.sr == nil || s.pc == nil || len(s.sr.Closes) > 0 || s.sr.Sock.ReadyState() != "open" || s.sr.Sock.Upgrading() || s.sr.Sock.Upgraded() {
+					break
+				}
+				var cand *WSClient
+				closeIdx := -1
+				var sm *SentMsg
+				s.sr.Sock.Once("close", func(...any) {
+					w.mu.Lock()
+					closeIdx = len(s.sr.Events)
+					w.mu.Unlock()
+					if cand != nil {
+						cand.SendPacket(ctl(tUpgrade), nil)
+					}
+					sm = w.AppSend(s.sr, msgT("sent from the close listener"), nil, true, 0)
+					linger()
+				})
+				cand = &WSClient{W: w, O: ClientOpts{Rev: s.rev}, Sid: s.sid}
+				if s.rev == 3 {
+					cand.O.EIO = "3"
+				}
+				cand.Start()
+				Settle()
+				cand.Pump()
+				if cand.HTTPStatus != 101 {
+					lw.f03("%s: candidate for an open polling session refused (%d)", what, cand.HTTPStatus)
+					break
+				}
+				cand.SendPacket(ctlD(tPing, "probe"), nil)
+				Settle()
+				fn := lw.causeFn(s, st.Cause)
+				if fn == nil {
+					cand.Drop()
+					Settle()
+					break
+				}
+				s.addCause(st.Cause)
+				fn()
+				Settle()
+				if closeIdx >= 0 {
+					lw.stats["upgrade-packet-inside-the-close-listener"] = true
+					lw.stats["activity-after-close"] = true
+					w.mu.Lock()
+					evs := append([]Ev(nil), s.sr.Events[closeIdx:]...)
+					w.mu.Unlock()
+					for _, e := range evs {
+						lw.f03("%s: while an application close listener was still running the candidate sent its upgrade packet and the application sent; afterwards event %v", what, e)
+						break
+					}
+					if s.sr.Sock.Upgraded() || s.sr.Sock.Transport().Name() != "polling" {
+						lw.f03("%s: a closed session switched to %q", what, s.sr.Sock.Transport().Name())
+					}
+					if sm != nil && len(sm.CbAt) > 0 {
+						lw.f03("%s: callback of a Send issued inside the close listener ran", what)
+					}
+				}
+				cand.Drop()
+				Settle()
 			case "sendWindow":
 				// a close cause takes effect while the application is inside Send, after Send's own ready-state
 				// test: a packetCreate listener (it runs on the sending goroutine) lets the cause happen and
@@ -1055,7 +1120,7 @@ func lcKnown() map[string]bool {
 func TestC03Lifecycle(t *testing.T) {
 	curT = t
 	col := NewCollector("TestC03Lifecycle",
-		"rapid: histories of 2-14 steps over <=3 sessions (polling/websocket/webtransport, revision 3/4; heartbeat 5s/3s with clients that answer every ping): handshake, traffic, a close cause (peer close packet/frame, connection drop, overlapping poll, heartbeat in the wrong direction, undecodable packet, client falling silent, Close(false), Close(true)), two causes from two goroutines at the same instant, server shutdown, time advances (1ms..31s), activity after the close event (Send with callback, client packets, Close again, timers), a close cause taking effect inside Send (between its ready-state test and its flush, placed there by a packetCreate listener); gated variants place a second cause inside OnClose's test-then-set window, a cause inside Close's window, and a connection drop between session construction and its registration; oracle: ready state never moves backwards (sampled at every event and quiescent point), the application is handed the session in state open, exactly one close event iff a cause occurred, its reason is one the injected causes map to, no event/callback after it, no close without a cause and such sessions are open at the end. non-trivial: >=2 causes on one session or at one instant or inside a window, a cause during the handshake, or activity after the close").Use(t)
+		"rapid: histories of 2-14 steps over <=3 sessions (polling/websocket/webtransport, revision 3/4; heartbeat 5s/3s with clients that answer every ping): handshake, traffic, a close cause (peer close packet/frame, connection drop, overlapping poll, heartbeat in the wrong direction, undecodable packet, client falling silent, Close(false), Close(true)), two causes from two goroutines at the same instant, server shutdown, time advances (1ms..31s), activity after the close event (Send with callback, client packets, Close again, timers), an upgrade candidate's upgrade packet and an application Send arriving while an application close listener is still running, a session closed inside the application's connection listener, a close cause taking effect inside Send (between its ready-state test and its flush, placed there by a packetCreate listener); gated variants place a second cause inside OnClose's test-then-set window, a cause inside Close's window, and a connection drop between session construction and its registration; oracle: ready state never moves backwards (sampled at every event and quiescent point), the application is handed the session in state open, exactly one close event iff a cause occurred, its reason is one the injected causes map to, no event/callback after it, no close without a cause and such sessions are open at the end. non-trivial: >=2 causes on one session or at one instant or inside a window, a cause during the handshake, or activity after the close").Use(t)
 	known := lcKnown()
 	for _, gated := range []bool{false, true} {
 		rapid.Check(t, func(rt *rapid.T) {
@@ -1074,7 +1139,7 @@ func TestC03Lifecycle(t *testing.T) {
 			}
 		})
 	}
-	req := []string{"closed-inside-the-connection-listener", "session-closed-inside-Send", "carrier.polling", "carrier.websocket", "carrier.webtransport", "two-causes-same-instant", ">=2-causes-on-one-session", "activity-after-close", "stayed-open", "server-close"}
+	req := []string{"upgrade-packet-inside-the-close-listener", "closed-inside-the-connection-listener", "session-closed-inside-Send", "carrier.polling", "carrier.websocket", "carrier.webtransport", "two-causes-same-instant", ">=2-causes-on-one-session", "activity-after-close", "stayed-open", "server-close"}
 	if !known[sigDoubleClose] {
 		req = append(req, "second-cause-inside-OnClose-window")
 	}
